@@ -93,7 +93,9 @@ func init() {
 			case *EncVal:
 			}
 			if fam == nil {
-				x.errorf("prefix iterator over an undeclared key prefix (%T) at %s", c.Args[1], c.Pos)
+				// over-approximation: an iterator whose prefix is not a declared family prefix yields arbitrary
+				// keys and values, arbitrarily many (sound for properties of what is done with each element)
+				x.assumed["opaque iterator over an undeclared key prefix at "+c.Pos+": elements unconstrained"] = true
 				return &OpaqueVal{Name: "iterator"}
 			}
 			return x.newIterator(st, fam, prefix, reverse)
